@@ -10,7 +10,9 @@ LEVEL = ("Static analysis of linfa-logistic and the Tweedie GLM: (validate) the 
          "(same) the predicted class is computed from the very scores the published probabilities are computed from: the "
          "binary predictor thresholds predict_probabilities(x) itself and maps >= threshold to the positive class, the "
          "multinomial predictor takes the arg-max of the scores that predict_probabilities soft-maxes row by row and reads the "
-         "label from the stored class list at that index. Stationarity of the returned point is not decided.")
+         "label from the stored class list at that index; (dispatch) every arm of the GLM link/distribution dispatchers calls the "
+         "same operation; (penalty) on every path the value of each loss/gradient function and of the optimiser's cost/gradient "
+         "adapters is computed from alpha (path-enumerating influence analysis). Stationarity of the returned point is not decided.")
 ASSUME = ["rustc resolution/typeck; HIR faithfully dumped", "soft-max is monotone per row, so arg-max of scores equals arg-max of probabilities"]
 
 
